@@ -122,8 +122,25 @@ func Execute(env *univ.Env, plan univ.Plan, doc *ast.QueryDocument, opName strin
 		name := x.dirName(def, d)
 		x.res.DirCalls = append(x.res.DirCalls, "|"+name)
 		x.res.Stats.Directives++
-		if out := plan.Directive("", name); out == 1 {
+		out := plan.Directive("", name)
+		if out == 1 {
 			x.res.Errors = append(x.res.Errors, ErrExp{"", "directive:" + univ.DirErrText("", name)})
+			blocked = true
+			x.res.Stats.DirBlocked++
+			break
+		}
+		if out == 2 {
+			// an operation directive that answers (nil, nil) without calling next: gqlgen cannot use
+			// that as the operation's result and says so ("unexpected type <nil> from directive")
+			x.res.Errors = append(x.res.Errors, ErrExp{"", "directive-nil"})
+			blocked = true
+			x.res.Stats.DirBlocked++
+			break
+		}
+		if out == 3 {
+			// a panic of an operation directive is not recovered per field: it ends the whole
+			// response (the transport's recover answers with that one error and no data)
+			x.res.Errors = append(x.res.Errors, ErrExp{"", "panic:P!dir!" + name})
 			blocked = true
 			x.res.Stats.DirBlocked++
 			break
